@@ -612,6 +612,8 @@ def main(tier):
     tproc.join()
     # every tree <= 5-6 nodes over {element, iframe, uniquely lettered text}: text after a skipped iframe at any depth
     rpl.run_cfg(chk, 'MC_C19_tail', {'MaxNodes': 5 if tier == 'quick' else 6}, 'tail%d' % (5 if tier == 'quick' else 6))
+    from harness import suite
+    suite.part(chk, 'C19')      # the repository's own test-suite as a trace corpus
     return chk.finish()
 
 
